@@ -43,7 +43,13 @@ def main():
         seed = int(os.environ.get("VERIF_SEED", "0") or 0)
         print(f"VERIF_SEED={seed}")
         code = runner.run_check(args.id, tier, seed, workers=args.workers, max_wall=args.wall, n_cases=args.cases)
-        sys.exit(code)
+        # Everything (verdict lines, evidence, replay files) has been written and closed. Leave without the interpreter's
+        # exit handlers: concurrent.futures joins the manager thread of every pool at exit, and that thread can wedge when
+        # the workers of a stopped pool (wall budget reached, cases abandoned) were killed - observed once as a check that
+        # had finished and never exited.
+        sys.stdout.flush()
+        sys.stderr.flush()
+        os._exit(code)
     if args.cmd == "replay":
         with open(args.path) as f:
             doc = json.load(f)
